@@ -506,7 +506,8 @@ func genFile(r *prng.R) []string {
 // genReal: production clock: resolution obligation + release order of bursts whose timestamps are taken
 // back to back (quota 1 per short window).
 func genReal(r *prng.R) []string {
-	ops := []string{"rcfg", "rclock n=2000", "rclock n=20000"}
+	ops := []string{"rcfg", "rclock n=2000", "rclock n=20000", "rafter d=0", fmt.Sprintf("rafter d=-%d", r.Range(1, 5000)),
+		fmt.Sprintf("rafter d=%d", r.Range(1, 20)), fmt.Sprintf("rstep win=%d", prng.Pick(r, []int{10, 15, 25}))}
 	for b := 0; b < 2; b++ {
 		n := r.Range(4, 8)
 		ps := make([]string, n)
